@@ -120,6 +120,8 @@ def md012(d, cfg):
     mx = cfg.get("maximum", 1)
     must = []
     silent = set(d.nested_lines)  # what counts as a blank line inside a container is the parser's business
+    if d.lines and d.lines[-1] == "":
+        silent.add(d.n)  # the empty string after the final newline: whether it is a "blank line" is not stated
     i = 0
     while i < d.n:
         if d.lines[i].strip(" \t") == "" and not (i == d.n - 1 and d.lines[i] == ""):
